@@ -871,6 +871,71 @@ func propC07(r *Run, w *World) {
 		}
 	}
 
+	// R12: what the -w form says about list, action and operators
+	r.Rule("C07.R12", "the -w form is printed only for what -w means: flags.Parse turns -w into an always,exit rule whose path/dir, perm and key filters compare with '=', so the rendering that starts with \"-w\" must be reached only under flags == AUDIT_FILTER_EXIT and action == AUDIT_ALWAYS, and the field walk that decides on the form must test each filter's operator against AUDIT_EQUAL (a never rule, or path!=..., listed as a watch re-encodes to a rule that means something else)", 1)
+	{
+		var wBlock *ssa.BasicBlock
+		instrsOf(x.toCmd, func(in ssa.Instruction) {
+			var ops []*ssa.Value
+			for _, op := range in.Operands(ops) {
+				if c, ok := (*op).(*ssa.Const); ok {
+					if sv, isS := constString(c); isS && sv == "-w" && wBlock == nil {
+						wBlock = in.Block()
+					}
+				}
+			}
+		})
+		if wBlock == nil {
+			r.Fail("-w rendering", x.toCmd.Pos(), "ToCommandLine has no \"-w\" rendering")
+		} else {
+			exitF, _, _ := w.constUint("rule", "exitFilter")
+			alwaysA, _, _ := w.constUint("rule", "alwaysAction")
+			eqOp, _, _ := w.constUint("rule", "equalOperator")
+			okList, okAct := false, false
+			lits := GuardLits(wBlock)
+			for _, l := range lits {
+				if strings.HasSuffix(l, fmt.Sprintf(".flags == %d", exitF)) {
+					okList = true
+				}
+				if strings.HasSuffix(l, fmt.Sprintf(".action == %d", alwaysA)) {
+					okAct = true
+				}
+			}
+			r.Check(okList, "-w rendering under list exit", wBlock.Instrs[0].Pos(), "flags == AUDIT_FILTER_EXIT", fmt.Sprintf("the -w form is printed without having established that the rule is on the exit list (guards in force: %v): a rule on another list is listed as a watch and re-encodes to an exit rule", lits))
+			r.Check(okAct, "-w rendering under action always", wBlock.Instrs[0].Pos(), "action == AUDIT_ALWAYS", fmt.Sprintf("the -w form is printed without having established that the action is always (guards in force: %v): `-a never,exit -F path=P -F perm=wa` is listed as `-w P -p wa`, which installs the opposite rule", lits))
+			canReach := map[*ssa.BasicBlock]bool{}
+			work := []*ssa.BasicBlock{wBlock}
+			for len(work) > 0 {
+				b := work[len(work)-1]
+				work = work[:len(work)-1]
+				if canReach[b] {
+					continue
+				}
+				canReach[b] = true
+				work = append(work, b.Preds...)
+			}
+			inLoop := map[*ssa.BasicBlock]bool{}
+			for _, l := range NaturalLoops(x.toCmd) {
+				for b := range l.Body {
+					inLoop[b] = true
+				}
+			}
+			okOp := false
+			instrsOf(x.toCmd, func(in ssa.Instruction) {
+				b, ok := in.(*ssa.BinOp)
+				if !ok || (b.Op != token.EQL && b.Op != token.NEQ) || !canReach[b.Block()] || !inLoop[b.Block()] {
+					return
+				}
+				for _, pr := range [][2]ssa.Value{{b.X, b.Y}, {b.Y, b.X}} {
+					if k, isK := constInt(pr[1]); isK && uint64(k) == eqOp && strings.Contains(Term(pr[0]), ".fieldFlags[") {
+						okOp = true
+					}
+				}
+			})
+			r.Check(okOp, "-w rendering after an operator test in the field walk", wBlock.Instrs[0].Pos(), "fieldFlags[i] compared with AUDIT_EQUAL", "no loop on the way to the -w rendering compares a filter's operator (fieldFlags[i]) with AUDIT_EQUAL: `-F path!=P -F perm=wa` is listed as `-w P -p wa`, which watches exactly the file the rule excluded")
+		}
+	}
+
 	// R4
 	r.Rule("C07.R4", "encoder-accepted domains are total in the decoder: a syscall number without a name in the table is listed by number (the encoder accepts raw numbers), not reported as an error", 1)
 	{
